@@ -15,8 +15,10 @@
 //!         `bgpsec_definitions_show` and the current certificates of the CAs whose chain to the TA is intact;
 //!   (v)   the objects the API reports; the ROA derivation steps (create_updates / renewal) observed in the
 //!         stored commands since the previous quiescent point.
-//! `--f04c 1` adds the scripted history of the known finding F04c (key-roll activation under a smaller new
-//! certificate) and switches off the guard that otherwise lets a rolling CA catch up with its parent.
+//! History 0 starts with the scripted history of finding F04c (key-roll activation under a smaller new certificate;
+//! repaired in 0ff85b31: the renewal event must carry the removal of the ROA the new certificate does not hold).
+//! Nothing shields the random histories from that situation either: a regression shows up as the failure class
+//! `overclaiming_products_after_roll_under_smaller_cert`.
 use std::collections::{BTreeMap, BTreeSet};
 use std::sync::Mutex;
 
@@ -784,7 +786,7 @@ fn key_tags_of(sys: &Sys, ca: &str) -> Vec<String> {
     ca_json(sys, ca).and_then(|c| c["resources"].as_object().map(|m| m.values().map(keystate_tag).collect())).unwrap_or_default()
 }
 
-fn run_history(args: &Args, hist: u64, seed: u64, n_ops: u64, every: u64, f04c: bool, out: &Mutex<Out>) {
+fn run_history(args: &Args, hist: u64, seed: u64, n_ops: u64, every: u64, out: &Mutex<Out>) {
     let mut rng = Rng::new(seed);
     let dir = args.out.join(format!("h{hist}"));
     let _ = std::fs::remove_dir_all(&dir);
@@ -803,7 +805,7 @@ fn run_history(args: &Args, hist: u64, seed: u64, n_ops: u64, every: u64, f04c: 
     }
     let mut st = OpState::new();
     let many = hist % 2 == 0 || hist % 3 != 2;      // histories with bursts of ROAs per origin AS (threshold crossing both ways)
-    let scripted_f04c = f04c && hist == 0;
+    let scripted_f04c = hist == 0;
     if scripted_f04c {
         // child d holds atoms {4,5}: a ROA in atom 5; key roll initiated; parent a takes atom 5 away; d's sync certifies the
         // NEW key without atom 5 (pending-request branch of the sync); activation; syncs
@@ -920,16 +922,6 @@ fn run_history(args: &Args, hist: u64, seed: u64, n_ops: u64, every: u64, f04c: 
             if let Err(e) = &res { *o.err_hist.entry(canon_err(e)).or_default() += 1; }
         }
         h.ops_since.push(json!({"op": desc, "error": res.as_ref().err().map(|e| e.chars().take(160).collect::<String>())}));
-        if !f04c {
-            // guard: a CA in the middle of a key roll catches up with its parent before anything else happens, so that a
-            // new key is never activated under a smaller certificate than the current key's (known finding F04c)
-            for ca in CAS {
-                if key_tags_of(&sys, ca).iter().any(|t| t == "roll_new" || t == "roll_pending") {
-                    let p = parent_of(ca);
-                    h.observe(&json!({"op": "guard_sync_parent", "ca": ca}), |s| { for _ in 0..2 { let _ = s.sync_parent(ca, p); if p == "ta" { let _ = s.sync_ta(); } } });
-                }
-            }
-        }
         if (n + 1) % every == 0 || n + 1 == n_ops {
             h.quiesce();
             h.check(&json!({"point": "after op", "n": n + 1}));
@@ -945,7 +937,6 @@ fn main() {
     let n_hist = args.get_u64("histories", if args.thorough() { 48 } else { 6 });
     let n_ops = args.get_u64("ops", if args.thorough() { 120 } else { 40 });
     let every = args.get_u64("every", if args.thorough() { 12 } else { 10 });
-    let f04c = args.get_u64("f04c", 0) == 1;
     let threads = args.get_u64("threads", 6) as usize;
     let header = "From KV Require Import base.Tac ca.Ca rp.Rp rp.RoaDerive rp.RpCheck.\nOpen Scope N_scope.";
     let footer = "Eval vm_compute in (failing agrees base_index cases).\nEval vm_compute in (failing c01_ok base_index cases).";
@@ -963,7 +954,7 @@ fn main() {
             let out = &out; let args = &args;
             s.spawn(move || {
                 for (h, sd) in chunk {
-                    let r = std::panic::catch_unwind(std::panic::AssertUnwindSafe(|| run_history(args, h, sd, n_ops, every, f04c, out)));
+                    let r = std::panic::catch_unwind(std::panic::AssertUnwindSafe(|| run_history(args, h, sd, n_ops, every, out)));
                     if let Err(p) = r {
                         let msg = p.downcast_ref::<String>().cloned().or_else(|| p.downcast_ref::<&str>().map(|s| s.to_string())).unwrap_or("panic".into());
                         out.lock().unwrap().impl_failures.push(json!({"index": null, "history": h, "class": {"panic": true}, "what": format!("panic while running the history: {msg}")}));
@@ -975,7 +966,7 @@ fn main() {
     let mut o = out.into_inner().unwrap();
     o.w.flush();
     write_json(&args.out.join("stats.json"), &json!({
-        "scenario": "c01", "seed": args.seed, "tier": args.tier, "histories": n_hist, "ops_per_history": n_ops, "check_every": every, "f04c_mode": f04c,
+        "scenario": "c01", "seed": args.seed, "tier": args.tier, "histories": n_hist, "ops_per_history": n_ops, "check_every": every,
         "evaluations": o.w.total, "distinct_nontrivial": o.distinct.len(),
         "rule": "random histories (ROA add/remove incl. bursts per origin AS and max-length ROAs, ASPA and router-key definitions, entitlement grow/shrink at every level, parent syncs, key roll init/activate, child suspend/unsuspend/remove/re-add, republish, renew, repo sync) on TA->a->{b->c,d} with a real publication server under aggregation thresholds 1/2, 3/5 and 90/100; every K operations the task queue is pumped and all CAs are synchronised, then one case = the complete repository content decoded and verified with the rpki crate (reference top-down walk) + its abstraction + expected payloads from the API views + API-reported objects + RRDP snapshot + ROA derivation steps since the last point; every case is non-trivial (>= 5 publication points); distinct = distinct (file count, VRP count, ASPA count, key states, object kinds, connected classes)",
         "op_distribution": o.op_hist, "error_distribution": o.err_hist, "roa_mode_distribution": o.mode_hist, "connected_distribution": o.connected_hist,
